@@ -1,0 +1,26 @@
+//go:build verif
+
+package gabi
+
+import "sync/atomic"
+
+// Verification hook (build tag verif only). verifHook is called at the synchronisation points of the
+// non-revocation proof builder cache of a Credential (NonrevPrepareCache, nonrevConsumeBuilder); the
+// installed function may block, which is how the verification harness gates goroutines to establish
+// a chosen interleaving.
+var verifHookFn atomic.Pointer[func(point string, args ...any)]
+
+func verifHook(point string, args ...any) {
+	if f := verifHookFn.Load(); f != nil {
+		(*f)(point, args...)
+	}
+}
+
+// SetVerifHook installs the hook function; nil removes it.
+func SetVerifHook(f func(point string, args ...any)) {
+	if f == nil {
+		verifHookFn.Store(nil)
+		return
+	}
+	verifHookFn.Store(&f)
+}
